@@ -552,7 +552,12 @@ class CAstTypes(object):
                 raise NotImplementedError("Not implemented!")
 
         elif isinstance(ast, c_ast.Constant):
-            result = int(ast.value, 0)
+            value = ast.value
+            if re.match(r"0[0-7]+$", value):
+                # C octal constant (int(x, 0) rejects a bare leading 0)
+                result = int(value, 8)
+            else:
+                result = int(value, 0)
         elif isinstance(ast, c_ast.Cast):
             # TODO: Can trunc integers?
             result = self.ast_eval_int(ast.expr)
